@@ -94,6 +94,10 @@ def vkey_deep(c):
     return c
 
 
+def vkey_res(r):
+    return ["v", r[1]] if r[0] == "v" else ["err"]
+
+
 def to_val(c):
     """canonical atom -> model JSON (Val)"""
     c = vkey(c)
@@ -406,6 +410,22 @@ def observe(env, probes, keys=None):
         o["on_probes"] = [apply_reward(rw, p) for p in probes]
         out.append(o)
     return {"ints": out}
+
+
+def actions_in_other_process(case):
+    """the action list of the first interaction as a fresh interpreter with another string-hash seed computes it"""
+    import subprocess
+    import sys
+    code = ("import sys,json,warnings; warnings.filterwarnings('ignore'); sys.path.insert(0,%r); sys.path.insert(0,%r);"
+            "from props.c14 import run_impl, vkey; o=run_impl(json.loads(sys.stdin.read()),[],1)[0];"
+            "print(json.dumps([vkey(a) for a in o['ints'][0]['actions']] if 'ints' in o and o['ints'] else None))"
+            % (os.environ.get("COBA_REPO", "/repo"), os.path.join(lean.VERIF, "harness")))
+    env = dict(os.environ, PYTHONHASHSEED="4242", PYTHONWARNINGS="ignore")
+    try:
+        p = subprocess.run([sys.executable, "-W", "ignore", "-c", code], input=json.dumps(case), capture_output=True, text=True, timeout=50, env=env)
+        return json.loads(p.stdout.strip().splitlines()[-1]) if p.returncode == 0 and p.stdout.strip() else None
+    except Exception:
+        return None
 
 
 def apply_reward(rw, a):
@@ -809,6 +829,8 @@ def model_request(case, probes):
         req.update(op="dense", ind=label_index(case), rows=rows)
         if case.get("header") and case.get("edge_kind") != "duplicate-header":
             req["header"] = list(case["header"])
+        if src in ("csv", "rows") and take is None and case.get("edge_kind") != "duplicate-header":
+            req["lazy"] = True      # list-backed rows: the C13 model of the lazy context object is evaluated too
     elif src in ("sarff", "rows"):
         if src == "sarff":
             key = canon(case["header"][label_index(case)])
@@ -874,14 +896,21 @@ def compare(impl, model, skip, readno):
     for i, (x, y) in enumerate(zip(a, b)):
         if "ctx" not in skip and (x["ctx_err"] or ctx_key(x["ctx"]) != ctx_key(y["ctx"])):
             return ("A:context", "read %d interaction %d: context %s (err %s), model %s" % (readno, i, short(x["ctx"]), x["ctx_err"], short(y["ctx"])))
-        if "actions" not in skip and [vkey(v) for v in x["actions"]] != [vkey(v) for v in y["actions"]]:
+        # the statement demands *a* fixed order, not a particular one: the action lists are compared as multisets here; that the
+        # order is fixed is decided by (B) (across interactions, reads, example orders, processes); whether it is the modelled
+        # order (ascending / declared levels) is reported as a tag, not as a failure
+        xa = sorted(json.dumps(vkey(v)) for v in x["actions"])
+        ya = sorted(json.dumps(vkey(v)) for v in y["actions"])
+        if "actions" not in skip and xa != ya:
             return ("A:actions", "read %d interaction %d: actions %s, model %s" % (readno, i, short(x["actions"]), short(y["actions"])))
         if "rewards" in skip or "rewards%d" % i in skip:
             continue
         if "on_actions" not in skip and "actions" not in skip:
-            for k, (r, s) in enumerate(zip(x["on_actions"], y["on_actions"])):
-                if not same_res(r, s):
-                    return ("A:reward-on-action", "read %d interaction %d: reward of offered action %s is %s, model %s" % (readno, i, short(x["actions"][k]), short(r), short(s)))
+            mine = {json.dumps(vkey(a)): s for a, s in zip(y["actions"], y["on_actions"])}
+            for a, r in zip(x["actions"], x["on_actions"]):
+                s = mine.get(json.dumps(vkey(a)))
+                if s is not None and not same_res(r, s):
+                    return ("A:reward-on-action", "read %d interaction %d: reward of offered action %s is %s, model %s" % (readno, i, short(a), short(r), short(s)))
         for k, (r, s) in enumerate(zip(x["on_probes"], y["on_probes"])):
             if not same_res(r, s):
                 return ("A:reward-on-probe", "read %d interaction %d: reward of probe #%d is %s, model %s" % (readno, i, k, short(r), short(s)))
@@ -1432,6 +1461,8 @@ class C14(Property):
     trusted_base = [
         "text sources without take: the model reads the text itself with C12's reader models (csvSim, libsvmSim, manikSim, arffDenseSim: header lines and data lines handed over separately, simple path); sparse ARFF and text sources with take: the model receives the table the harness wrote, so reader + LabelRows + read are jointly compared with the model",
         "take: the model runs C09's reservoir (Algorithm L, seed 1) itself; only the float quantities (skip count, slot) of its loop iterations are recomputed by the harness with the code's formulas from the LCG uniforms (as in C09) and handed in; the statement-level monitor (B) takes the sample positions from coba's own Reservoir",
+        "the lazy context object (C13's DRow model: plain list / HeadDense under LabelDense.feats = DropOne) is evaluated by the driver for list-backed tables (CSV, ListSource rows) without take and compared on iteration, len, ctx[j], ctx[name]; ARFF rows (LazyDense) and sparse rows are compared through the C14-level featureByName / context checks only",
+        "action order: (A) compares action lists as multisets; that the order is fixed is decided by (B) (same list in every interaction, on both reads, for reversed and shuffled examples, and - 2% of the cases - in a fresh interpreter with another hash seed); agreement with the modelled order (ascending / declared levels) is counted in the tag action-order:as-modelled",
         "ARFF numeric tokens are converted by the model only when they are exact decimals (the writer emits small integers and dyadic fractions); float(token) in general is CPython's",
         "float arithmetic: generated numbers are small integers or dyadic rationals with few bits, so -|a-y| is exact in doubles; Jaccard values are compared as the double nearest to the model's rational",
     ]
@@ -1442,7 +1473,8 @@ class C14(Property):
         "'the distinct labels of the data' of a simulation with take are read as the labels of the sampled examples (the simulation's own examples): that is what the code computes and what take_sample_spec states",
         "regression from CSV / LibSVM / Manik text is not generated: these readers deliver labels as strings / lists of strings",
     ]
-    partial_theorems = {"Coba.C14.end_to_end_arff_dense": "carries C12's forced hypotheses (AttrW.ok: C12-F8/F9, arffRowOk: C12-F11) and covers the reader's simple path with header lines and data lines given separately; sparse ARFF has no end-to-end theorem (C12 proves the sparse round trip per row only)"}
+    partial_theorems = {"Coba.C14.end_to_end_arff_dense": "carries C12's forced hypotheses (AttrW.ok: C12-F8/F9, arffRowOk: C12-F11) and covers the reader's simple path with header lines and data lines given separately; sparse ARFF has no end-to-end theorem (C12 proves the sparse round trip per row only)",
+                        "Coba.C14.end_to_end_arff_dense_xy_partial": "ARFF = (X,Y) form only for dense files inside C12's AttrW.ok / arffRowOk with header and data lines handed over separately (no whole-file arffRead round trip in C12); sparse data lines not proved (C12 has the row-level arff_sparse_roundtrip_partial only, not sparseRows over a file)"}
 
     def corpus(self):
         cat = lambda s, L: {"cat": s, "levels": L}
@@ -1592,6 +1624,27 @@ class C14(Property):
                 if sorted(map(json.dumps, map(vkey, rev["ints"][0]["actions"]))) == sorted(map(json.dumps, map(vkey, impl[0]["ints"][0]["actions"]))):
                     fails.append(F("B", "the action order is not fixed: %s for the examples as given, %s for the same examples in reverse order (%s)"
                                    % (short(impl[0]["ints"][0]["actions"]), short(rev["ints"][0]["actions"]), describe(case)), "actions-order-depends-on-example-order"))
+        first_actions = lambda o: [vkey(a) for a in o["ints"][0]["actions"]] if "ints" in o and o["ints"] else None
+        same_set = lambda a, b: sorted(map(json.dumps, a)) == sorted(map(json.dumps, b))
+        a0 = first_actions(impl[0])
+        if not case.get("edge") and lt in ("c", "m") and a0 is not None:
+            a1 = first_actions(impl[1])
+            if a1 is not None and a1 != a0 and same_set(a0, a1):
+                fails.append(F("B", "the action order is not fixed: %s on the first read, %s on the second (%s)" % (short(a0), short(a1), describe(case)),
+                               "actions-order-differs-between-reads"))
+            orng = Rng(json.dumps(case, sort_keys=True), "order")
+            if case.get("take") is None and len(case["rows"]) >= 3:
+                shuf = run_impl(dict(case, rows=orng.shuffle(case["rows"])), [], reads=1)[0]
+                a2 = first_actions(shuf)
+                if a2 is not None and a2 != a0 and same_set(a0, a2):
+                    fails.append(F("B", "the action order is not fixed: %s for the examples as given, %s for the same examples in another order (%s)"
+                                   % (short(a0), short(a2), describe(case)), "actions-order-depends-on-example-order"))
+            if len(a0) >= 2 and not case.get("file") and orng.chance(0.02):
+                tags.append("other-process")
+                a3 = actions_in_other_process(case)
+                if a3 is not None and a3 != a0 and same_set(a0, a3):
+                    fails.append(F("B", "the action order is not fixed: %s in this process, %s in a process with another hash seed (%s)"
+                                   % (short(a0), short(a3), describe(case)), "actions-order-depends-on-process"))
         # tags
         tags += ["src:" + src, "lt:%s" % lt, "given:%s" % case.get("label_type"), "via:" + case.get("via", "sim")]
         tags.append("n:%s" % (exp["n"] if exp["n"] < 4 else "4+"))
@@ -1643,6 +1696,8 @@ class C14(Property):
             mobs = model_obs(ans, req["op"])
             model = mobs
             tags.append("model-op:" + req["op"] + (":reservoir" if req.get("res") else ""))
+            if a0 is not None and "ints" in mobs and mobs["ints"] and len(a0) >= 2:
+                tags.append("action-order:as-modelled" if a0 == [vkey(a) for a in mobs["ints"][0]["actions"]] else "action-order:OTHER-than-modelled")
             if mobs.get("err") == "OutOfModel":
                 tags.append("out-of-model")
             else:
@@ -1674,6 +1729,38 @@ class C14(Property):
                             fails.append(F("A", "interaction %d: %s (%s)" % (i, d, describe(case)), "A:context-lookup"))
                             break
                     tags.append("lookup-compared")
+                lazy = ans.get("lazy")
+                if lazy and src in ("csv", "rows") and case.get("via") != "env" and "ints" in impl[0] and len(lazy) == len(impl[0]["ints"]) \
+                        and not any(f["kind"] == "A" for f in fails) and case.get("edge_kind") != "duplicate-header":
+                    # the context object itself (C13's DropOne/HeadDense model inside the C14 model): iteration, len, ctx[j], ctx[name]
+                    resj = lambda r: ["v", from_label(r["v"])] if "v" in r and r["v"] is not None else ["err", r.get("err")]
+                    keys = access_keys(case) or {"names": [], "label": None}
+                    hdr = case.get("header") or []
+                    for i, (it, lz) in enumerate(zip(impl[0]["ints"], lazy)):
+                        acc = it.get("acc")
+                        if lz is None or not acc:
+                            continue
+                        d = None
+                        if it["ctx"] != ["L", [from_label(v) for v in lz["iter"]]]:
+                            d = "list(context) %s, model %s" % (short(it["ctx"]), short(lz["iter"]))
+                        elif acc.get("len") != ["v", ["q", lz["len"], 1]]:
+                            d = "len(context) %s, model %s" % (short(acc.get("len")), lz["len"])
+                        elif [vkey_res(p) for p in acc.get("pos", [])] != [vkey_res(resj(r)) for r in lz["pos"]]:
+                            d = "context[j] %s, model %s" % (short(acc.get("pos")), short(lz["pos"]))
+                        elif acc.get("headers") is not None and hdr:
+                            mine = {h: resj(r) for h, r in zip(hdr, lz["by_name"])}
+                            got = {k[1]: r for k, r in acc["names"]}
+                            if keys["label"] is not None:
+                                got[keys["label"]] = acc.get("label")
+                            for k, r in got.items():
+                                m = mine.get(k)
+                                if m is None or r is None or r[0] != m[0] or (r[0] == "v" and r[1] != m[1]):
+                                    d = "context[%r] %s, model %s" % (k, short(r), short(m))
+                                    break
+                        if d:
+                            fails.append(F("A", "interaction %d, the lazy context object: %s (%s)" % (i, d, describe(case)), "A:lazy-context"))
+                            break
+                    tags.append("lazy-context-compared")
                 if not case.get("edge"):
                     for sig, what, _ in monitor(mobs, exp, probes, case, 0, who="model"):
                         if sig != "categorical-unused-level-offered":
